@@ -24,7 +24,7 @@ RULE = (
     "path-ordered?, iteration>0, own-context shadow)."
 )
 ASSUMPTIONS = ["SQLite backend", "only path-ordered scalar keys are asserted by value; for unordered producers membership in the candidate set"]
-MIN_OBS = {"keys_checked": {"quick": 3000, "thorough": 50000}, "later_iteration_executions": {"quick": 50, "thorough": 500}, "reducer_orders": {"quick": 200, "thorough": 3000}}
+MIN_OBS = {"keys_checked": {"quick": 3000, "thorough": 50000}, "later_iteration_executions": {"quick": 50, "thorough": 500}, "reducer_orders": {"quick": 200, "thorough": 3000}, "interleaved_runs": {"quick": 60, "thorough": 800}}
 TIMEOUT = {"quick": 600, "thorough": 3000}
 
 SCALARS = ["k1", "k2", "k3"]
@@ -85,6 +85,7 @@ def gen_cases(tier: str, seed: int) -> list[dict]:
     cases = [{"kind": "flow", "spec_i": i, "seed": seed, "nsched": k} for i in range(n)]
     nred = 12 if tier == "quick" else 80
     cases += [{"kind": "reducers", "i": i, "seed": seed} for i in range(nred)]
+    cases += [{"kind": "race", "spec_i": i, "seed": seed} for i in range(80 if tier == "quick" else 1000)]
     return cases
 
 
@@ -294,9 +295,37 @@ def reducer_case(case: dict) -> dict:
     return {"violations": out[:5], "obs": dict(obs), "keys": sorted(keys)}
 
 
+def _race(case: dict) -> dict:
+    """The visibility model checked on runs by 2-4 worker threads interleaved at SQL-statement granularity
+    (sibling branches really overlap, joins start while other branches still write)."""
+    from .. import interleave as il
+
+    spec = _spec_for(case["spec_i"], case["seed"])
+    rng = random.Random(case["seed"] * 5501 + case["spec_i"])
+    run, info = il.race_run(spec, rng, max_msgs=1200)
+    obs: Counter = Counter({"evaluations": 1})
+    if run is None:
+        obs["scheduler_failed"] += 1
+        return {"violations": [], "obs": dict(obs), "keys": [], "inconclusive": info.get("failed")}
+    obs["interleaved_runs"] += 1
+    v, o, k = visibility_oracle(spec, run)
+    v = oracles.attribute(v, run, "C16") if not run.quiescent or run.state["wf"] == "RUNNING" else v
+    obs.update(o)
+    seen = set()
+    uniq = []
+    for x in v:
+        if x["sig"] not in seen:
+            seen.add(x["sig"])
+            x.update(spec=spec["name"], interleaved=True, trace_hash=info["trace_hash"])
+            uniq.append(x)
+    return {"violations": uniq, "obs": dict(obs), "keys": sorted("race:" + x for x in k)}
+
+
 def run_case(case: dict) -> dict:
     if case["kind"] == "reducers":
         return reducer_case(case)
+    if case["kind"] == "race":
+        return _race(case)
     spec = _spec_for(case["spec_i"], case["seed"])
     rng = random.Random(case["seed"] * 3 + case["spec_i"])
     obs: Counter = Counter()
